@@ -33,7 +33,7 @@ type epSpec struct {
 
 type mutation struct {
 	Kind  string `json:"kind,omitempty"`
-	Ep    int    `json:"ep"`    // entry index; -1 = the advertisement itself
+	Ep    int    `json:"ep"`              // entry index; -1 = the advertisement itself
 	Index int    `json:"index,omitempty"` // address index / byte position / other pool key
 	Mask  int    `json:"mask,omitempty"`  // xor mask for byte mutations
 }
